@@ -116,11 +116,14 @@ struct Findings
 };
 static Findings g_find;
 static std::map<std::string, long> g_metric;
-static std::string g_now;  // history being executed, for the watchdog
+static std::string g_now;          // operation(s) in flight, for the watchdog (record / scenario mode)
+static const json *g_hist = nullptr;  // history of the scenario in flight (replay mode)
 
 static void onHang(int)
 {
     // an operation of a structure over <= 12 vertices used more than 3 s of CPU: endless loop
+    if (g_hist)
+        g_now = g_hist->dump();  // not async-signal-safe; the process ends here anyway
     if (vt::Trace::current())
     {
         // the operation that does not return is not in the trace yet: name it, so that the trace
@@ -131,7 +134,7 @@ static void onHang(int)
     const char *p = "HANG ";
     (void)!write(1, p, 5);
     (void)!write(1, g_now.c_str(), g_now.size());
-    (void)!write(1, "]\n", 2);
+    (void)!write(1, g_hist ? "\n" : "]\n", g_hist ? 1 : 2);
     _exit(71);
 }
 static void arm(int seconds)
@@ -150,12 +153,6 @@ static void beginHistory(int seconds)
 {
     g_now = "[";
     arm(seconds);
-}
-static void note(const json &op)
-{
-    if (g_now.size() > 1)
-        g_now += ",";
-    g_now += op.dump();
 }
 
 // ------------------------------------------------------------------ DynamicSSSP
@@ -197,10 +194,11 @@ struct SsspReal
         ev["aff"] = a;
         return ev;
     }
-    json apply(const json &op)
+    // quiet: perform the operation only (unobserved prefix step of a replay scenario)
+    json apply(const json &op, bool quiet = false)
     {
         const std::string e = op["e"];
-        json ev = op;
+        json ev = quiet ? json::object() : op;
         if (e == "Setup")
         {
             d.reset(new ompl::DynamicSSSP());
@@ -232,7 +230,7 @@ struct SsspReal
         }
         else
             throw std::runtime_error("sssp: unknown operation " + e);
-        return observe(ev);
+        return quiet ? ev : observe(ev);
     }
 };
 
@@ -264,10 +262,10 @@ struct LpaReal
     LpaReal() = default;
     LpaReal(const LpaReal &) = delete;
 
-    json apply(const json &op)
+    json apply(const json &op, bool quiet = false)
     {
         const std::string e = op["e"];
-        json ev = op;
+        json ev = quiet ? json::object() : op;
         if (e == "Setup")
         {
             lpa.reset();
@@ -329,6 +327,8 @@ struct LpaReal
                 p.push_back(x < (std::size_t)nv ? (long long)x : -3LL);
             ev["path"] = p;
             ev["gt"] = enc((*lpa)(t), DINF);
+            if (quiet)
+                return ev;
             json gs = json::array();
             for (int i = 0; i < nv; ++i)
                 gs.push_back(enc((*lpa)(i), DINF));
@@ -489,11 +489,16 @@ struct DriverBase
 {
     json hist = json::array();
     std::string err;
-    json lastExp;
-    std::string lastAct;
+    const json *lastExp{nullptr};
     DriverBase()
     {
         beginHistory(3);
+        g_hist = &hist;
+    }
+    DriverBase(const DriverBase &) = delete;
+    ~DriverBase()
+    {
+        g_hist = nullptr;
     }
     void file(const std::string &kind, const std::string &why)
     {
@@ -544,9 +549,8 @@ struct SsspDriver : DriverBase
             op["s"] = 0;
         // LBTRRT passes collectVertices=false for tree edges and true in considerEdge
         op["col"] = (++n % 4 == 0) ? 0 : 1;
-        hist.push_back(op);
-        note(op);
-        json ev = real.apply(op);
+        hist.push_back(std::move(op));
+        json ev = real.apply(hist.back(), !obs);
         if (obs && e.a != "Setup")
             judge(e, ev);
         return true;
@@ -631,13 +635,13 @@ struct LpaDriver : DriverBase
             op["s"] = op["source"];
             op["t"] = op["target"];
         }
-        hist.push_back(op);
-        note(op);
-        json ev = real.apply(op);
-        lastExp = e.exp;
-        lastAct = e.a;
-        if (e.a == "Compute")
+        hist.push_back(std::move(op));
+        json ev = real.apply(hist.back(), !obs);
+        lastExp = &e.exp;
+        if (e.a == "Compute" && obs)
             track(ev);
+        else if (e.a == "Compute")
+            lastG = json();
         if (obs && e.a == "Compute")
             judge(ev, "");
         return true;
@@ -674,7 +678,7 @@ struct LpaDriver : DriverBase
     }
     void judge(const json &ev, const std::string &when)
     {
-        const json &x = lastExp;
+        const json &x = *lastExp;
         long long got = ev["cost"], want = x["cost"], gt = ev["gt"];
         const json &p = ev["path"];
         const std::string pre = real.directed ? "lpad:compute:" : "lpa:compute:";
@@ -716,12 +720,10 @@ struct LpaDriver : DriverBase
     // end-of-scenario check: whatever batch of changes the scenario ended with, a search now is right
     bool finish()
     {
-        if (lastExp.is_null() || !real.lpa)
+        if (!lastExp || !real.lpa)
             return true;
-        json op{{"e", "Compute"}};
-        hist.push_back(op);
-        note(op);
-        json ev = real.apply(op);
+        hist.push_back(json{{"e", "Compute"}});
+        json ev = real.apply(hist.back());
         judge(ev, "");
         return true;
     }
@@ -733,10 +735,10 @@ struct AdjDriver : DriverBase
     bool step(const vt::Edge &e, bool obs)
     {
         json op = opOf(e);
-        hist.push_back(op);
-        note(op);
+        hist.push_back(std::move(op));
+        const json &o = hist.back();
         // unobserved prefix steps skip the (quadratic) battery
-        json ev = (e.a == "Setup" || obs) ? real.apply(op, true, nullptr) : applyQuiet(op);
+        json ev = (e.a == "Setup" || obs) ? real.apply(o, true, nullptr) : applyQuiet(o);
         if (obs && e.a != "Setup")
             judge(e, ev);
         return true;
